@@ -54,9 +54,11 @@ PLAN = dict(
         append=[dict(file="tracing-core/src/dispatch.rs", text=DISPATCH_HELPER, kind="cfg(kani) constructor helper"),
                 dict(file="tracing-core/src/callsite.rs", text=REG_HELPER, kind="cfg(kani) accessor helper")],
     ), dict(
-        crate="tracing", tls_shim_crates=["tracing-core"], once_cell_stub=True, tag="macros", jobs=4, timeout_s=3000,
-        modules=[dict(name="__verif_c01", attach="lib", files=["macro_guard.kani.rs"]),
-                 dict(name="__verif_c01q", attach="lib", files=["macro_guard_inv.kani.rs"])],
+        crate="tracing", tls_shim_crates=["tracing-core"], once_cell_stub=True, tag="macros-contracts",
+        modules=[dict(name="__verif_c01q", attach="lib", files=["macro_guard_inv.kani.rs"])],
+    ), dict(
+        crate="tracing", tls_shim_crates=["tracing-core"], once_cell_stub=True, tag="macros", jobs=2, timeout_s=3000,
+        modules=[dict(name="__verif_c01", attach="lib", files=["macro_guard.kani.rs"])],
     )],
     manifest=dict(technique='Verus lemmas (fold, invariant preservation, guard exactness) over Kani-discharged contracts of the real registry functions; the real macro expansions verified against those contracts (quick) and end to end through the real registry (thorough)',
         text='The unbounded part (any number of collectors, any finite history, guard exactness) is proved in Verus from function contracts; those contracts are discharged by Kani on the real code from arbitrary prior cache state, with a stated width bound (3 registrars x 2 callsites) that the fold lemma generalises. The real event!/span!/enabled! expansions and MacroCallsite are verified in the quick tier against exactly those contracts (cached interest = fold, published level >= live hints, get_default = current collector) for every state the contracts allow, with a must-fail canary that drops the cache contract; the end-to-end runs through the real registry are the thorough tier.',
